@@ -23,6 +23,7 @@ RULE = (
     "process (about 20% of the groups); the other groups run their members inside one worker process (threads, chunk size, clock, RNG "
     "seed, output location, earlier work vary) so the parallel kernel is sampled far more often; non-trivial = at least 3 updates in every member and all members ran; distinct = distinct group digests"
 )
+LIFECYCLES = {}  # shared object life cycles (scen.add_lifecycles) with their default rates
 BUDGET = {"quick": {"runs": 120, "chunk": 2, "selftest": 2, "max_wall": 800}, "thorough": {"runs": 2500, "chunk": 4, "selftest": 2}}
 COMPONENTS = {"real": ["meshing (Triangle)", "TDGLSolver incl. numba parallel screening kernel", "validator RNG path", "Runner/DataHandler/Solution", "fresh CPython interpreters"], "stub": ["wall clock (scripted, differs per member)", "validator RNG seed (differs per member)"]}
 ASSUMPTIONS = ["The interleaving of threads inside a numba/OpenMP kernel is sampled (thread count, chunk size, affinity incl. 16 threads on 1 core), not controlled."]
